@@ -21,3 +21,8 @@ claim("C16", "call-graph SCC classification with go/cfg dominance of visited-set
       "Structural: every recursion cycle among generator functions is containment-decreasing, visited-guarded (insertion precedes the recursive call on every CFG path, entry test present) or confined to the map arm; no unbounded for; no panic/log.Fatal/os.Exit outside unreadable-input and stdout-failure handling; every Field.Message/Enum/Oneof dereference and every constant index into a descriptor slice has a dominating guard (local, at all callers, struct witness, or a frozen reasoned exception). These are necessary conditions for 'terminates with an answer'; no numeric time/memory bound is decided.",
       "Trusts descriptor facts (finite declaration tree, map values are not maps, map entries have two fields) and protogen/libopenapi termination.",
       "DESIGN.md 5/C16")
+
+claim("C02", "emission reconstruction of the constant server runtime + go/types + effect summaries + go/cfg path search (lost write, must-pass), table extraction",
+      "Structural: the go-http runtime text is rebuilt from the generator's syntax tree (it is a constant of the source), type-checked, and analysed as a program: no CFG path of the BindingMiddleware handler binds URL values, resets the message by decoding the body, and dispatches; every dispatching path has bound path and query parameters for every verb; binder failures end in an error response and return; violations name the field; the string conversion table pairs each kind with its parser, bit size and constructor; the TS server and OpenAPI bind/declare query parameters for every verb. Value semantics of strconv and percent-decoding are not decided.",
+      "Library facts: protojson/proto Unmarshal reset their target; generated messages implement proto.Message. protovalidate is a 4-symbol stub for type-checking.",
+      "DESIGN.md 5/C02")
